@@ -515,6 +515,7 @@ pub open spec fn whitespace_tok<'a>(i: OffsetStrIter<'a>, r: Result<OffsetStrIte
     // the run is the run of ASCII whitespace (space, \t, \n, VT, FF, \r) whenever the stepper stands on a character
     // boundary (it always does: `tokenize` keeps it there)
     &&& on_boundary(bs, o) ==> ws_end(bs, o) == ws_ascii_end(bs, o) && on_boundary(bs, ws_end(bs, o))
+    &&& r matches Result::Complete(rest, tok) ==> token_shape(i, rest, tok)
 }
 
 //@ extract src/tokenizer/mod.rs :: make_fn whitespace
@@ -620,7 +621,7 @@ pub open spec fn comment_tok<'a>(input: OffsetStrIter<'a>, r: Result<OffsetStrIt
         // true position of the first `/`; the next token starts after the terminator, on a character boundary
         r matches Result::Complete(rest, tok) && moved(input, rest, cmt_next(bs, e))
         && tok.typ is COMMENT && encode_utf8(tok.fragment@) == bs.subrange(s, e) && pos_is(tok.pos, input)
-        && on_boundary(bs, cmt_next(bs, e))
+        && on_boundary(bs, cmt_next(bs, e)) && token_shape(input, rest, tok)
     }
 }
 
@@ -641,6 +642,7 @@ pub open spec fn comment_tok<'a>(input: OffsetStrIter<'a>, r: Result<OffsetStrIt
             // `/` is ASCII: the stepper stands on a character boundary, and so does the text after `//`
             lemma_ascii_on_boundary(input.contained.source, o);
             lemma_boundary_step(bs, o); lemma_boundary_step(bs, o + 1);
+            lemma_cmt_end_bounds(bs, o + 2);
         }
     }
 //@   >>>
@@ -673,7 +675,7 @@ pub open spec fn fixed_tok<'a>(i: OffsetStrIter<'a>, r: Result<OffsetStrIter<'a>
     if starts_with_at(bs, o, lit(text)) {
         r matches Result::Complete(rest, tok) && moved(i, rest, o + n) && n > 0
         && tok.typ == typ && tok.fragment@ == text@ && pos_is(tok.pos, i)
-        && (on_boundary(bs, o) ==> on_boundary(bs, o + n))
+        && (on_boundary(bs, o) ==> on_boundary(bs, o + n)) && token_shape(i, rest, tok)
     } else {
         r is Fail
     }
@@ -688,7 +690,7 @@ pub open spec fn keyword_tok<'a>(i: OffsetStrIter<'a>, r: Result<OffsetStrIter<'
     if starts_with_at(bs, o, lit(text)) && sep_at(bs, o + n) {
         r matches Result::Complete(rest, tok) && moved(i, rest, sep_end(bs, o + n)) && sep_end(bs, o + n) > o + n && n > 0
         && tok.typ is BAREWORD && tok.fragment@ == text@ && pos_is(tok.pos, i)
-        && (on_boundary(bs, o) ==> on_boundary(bs, sep_end(bs, o + n)))
+        && (on_boundary(bs, o) ==> on_boundary(bs, sep_end(bs, o + n))) && token_shape(i, rest, tok)
     } else {
         r is Fail
     }
@@ -1273,7 +1275,7 @@ pub open spec fn run_tok<'a>(i: OffsetStrIter<'a>, r: Result<OffsetStrIter<'a>, 
     if o < bs.len() && first_ok {
         r matches Result::Complete(rest, tok) && moved(i, rest, e) && e > o
         && tok.typ == typ && encode_utf8(tok.fragment@) == bs.subrange(o, e) && pos_is(tok.pos, i)
-        && on_boundary(bs, e)
+        && on_boundary(bs, e) && token_shape(i, rest, tok)
     } else {
         r is Fail
     }
@@ -1290,7 +1292,7 @@ pub open spec fn run_tok<'a>(i: OffsetStrIter<'a>, r: Result<OffsetStrIter<'a>, 
 //@   body_start <<<
     proof {
         let bs = bytes_of(i); let o = off_of(i);
-        if o < bs.len() && alpha_byte(bs[o]) { lemma_ascii_on_boundary(i.contained.source, o); lemma_run_end_bounds(bs, o + 1, ByteClass::Symbol); }
+        if o < bs.len() && alpha_byte(bs[o]) { lemma_ascii_on_boundary(i.contained.source, o); lemma_run_end_bounds(bs, o + 1, ByteClass::Symbol); lemma_subrange_starts(bs, o, run_end(bs, o, ByteClass::Symbol)); }
     }
 //@   >>>
 //@   mutant bareword_digit_start "peek!(ascii_alpha)" => "peek!(ascii_digit)" expect barewordtok
@@ -1306,7 +1308,7 @@ pub open spec fn run_tok<'a>(i: OffsetStrIter<'a>, r: Result<OffsetStrIter<'a>, 
 //@   body_start <<<
     proof {
         let bs = bytes_of(i); let o = off_of(i);
-        if o < bs.len() && digit_byte(bs[o]) { lemma_ascii_on_boundary(i.contained.source, o); lemma_run_end_bounds(bs, o + 1, ByteClass::Digit); }
+        if o < bs.len() && digit_byte(bs[o]) { lemma_ascii_on_boundary(i.contained.source, o); lemma_run_end_bounds(bs, o + 1, ByteClass::Digit); lemma_subrange_starts(bs, o, run_end(bs, o, ByteClass::Digit)); }
     }
 //@   >>>
 //@   mutant digits_as_symbols "consume_all!(ascii_digit)" => "consume_all!(is_symbol_char)" expect digittok
@@ -1320,7 +1322,7 @@ pub open spec fn word_tok<'a>(i: OffsetStrIter<'a>, r: Result<OffsetStrIter<'a>,
     starts_with_at(bs, o, lit(text)) && !sym_at(bs, o + n)
     && (r matches Result::Complete(rest, tok) && moved(i, rest, o + n) && n > 0
         && tok.typ == typ && tok.fragment@ == text@ && pos_is(tok.pos, i)
-        && (on_boundary(bs, o) ==> on_boundary(bs, o + n)))
+        && (on_boundary(bs, o) ==> on_boundary(bs, o + n)) && token_shape(i, rest, tok))
 }
 pub proof fn lemma_true_false_lits()
     ensures lit("true").len() == 4, lit("true")[0] == 0x74, lit("false").len() == 5, lit("false")[0] == 0x66,
@@ -1377,7 +1379,7 @@ pub proof fn lemma_bool_lits(bs: Seq<u8>, o: int)
     requires wf_osi(i)
     ensures
         off_of(i) >= bytes_of(i).len() ==> (r matches Result::Complete(rest, tok) && rest == i
-            && tok.typ is END && tok.fragment@ =~= Seq::<char>::empty() && pos_is(tok.pos, i)),
+            && tok.typ is END && tok.fragment@ =~= Seq::<char>::empty() && pos_is(tok.pos, i) && token_shape(i, rest, tok)),
         off_of(i) < bytes_of(i).len() ==> r is Fail,
 //@   >>>
 //@   body_start <<<
@@ -1413,7 +1415,7 @@ pub open spec fn str_tok<'a>(i: OffsetStrIter<'a>, r: Result<OffsetStrIter<'a>, 
     &&& !(0 <= o < bs.len() && bs[o] == 0x22) ==> r is Fail
     &&& r matches Result::Complete(rest, tok) ==> moved(i, rest, off_of(rest)) && o + 2 <= off_of(rest) <= bs.len()
             && bs[o] == 0x22 && bs[off_of(rest) - 1] == 0x22
-            && tok.typ is QUOTED && pos_is(tok.pos, i) && on_boundary(bs, off_of(rest))
+            && tok.typ is QUOTED && pos_is(tok.pos, i) && on_boundary(bs, off_of(rest)) && token_shape(i, rest, tok)
     &&& !(r is Abort)
 }
 //@ extract src/tokenizer/mod.rs :: make_fn strtok
@@ -1612,14 +1614,12 @@ pub proof fn lemma_subrange_starts(bs: Seq<u8>, o: int, e: int)
         longest_op(input, r, "%%"), longest_op(input, r, "!="), longest_op(input, r, "!~"),
 //@   >>>
 //@   body_start <<<
+    // every recogniser establishes token_shape itself: here it is only passed on
+    hide(token_shape);
     proof {
         let bs = bytes_of(input); let o = off_of(input);
         lemma_first_bytes(bs, o);
         lemma_ws_end_bounds(bs, o);
-        lemma_run_end_bounds(bs, o, ByteClass::Symbol); lemma_run_end_bounds(bs, o, ByteClass::Digit);
-        lemma_subrange_starts(bs, o, run_end(bs, o, ByteClass::Symbol)); lemma_subrange_starts(bs, o, run_end(bs, o, ByteClass::Digit));
-        if starts_comment(bs, o) { lemma_cmt_end_bounds(bs, o + 2); }
-        assert(encode_utf8(Seq::<char>::empty()) =~= Seq::<u8>::empty());
     }
 //@   >>>
 //@   mutant eq_before_eqeq "eqeqtok, notequaltok," => "equaltok, eqeqtok, notequaltok," expect token
